@@ -58,7 +58,7 @@ impl Scenario for C13 {
         "exploration"
     }
     fn rule(&self) -> String {
-        "Operation histories over one shared ControlPoints: (1) every sequence up to length 3 (quick) / 4 (thorough) over the alphabet {4 kinds x times {-1,0,1,2} x 2 values} — enumerated; (2) seeded histories of length <= 32 built from 1–3 client scripts (two time-ordered, one arbitrary) interleaved by the scheduler, with fractional, negative and repeated times (finite, no -0.0, no NaN). After every add: lists == reference model, strictly increasing; lookups at every stored time, midpoints, before the first and beyond the last == linear-scan reference with the documented fall-backs. distinct_nontrivial = distinct plan hashes with >= 2 operations.".into()
+        "Operation histories over one shared ControlPoints: (1) every sequence up to length 3 (quick) / 4 (thorough) over the alphabet {4 kinds x times {-1,0,1,2} x 2 values} — enumerated; (2) seeded histories of length <= 32 (one in ten: 40..140 operations over a pool of 70 times, so lists outgrow any small internal threshold and equal-time adds land on every index) built from 1–3 client scripts (two time-ordered, one arbitrary) interleaved by the scheduler, with fractional, negative and repeated times (finite, no -0.0, no NaN). After every add: lists == reference model, strictly increasing; lookups at every stored time, midpoints, before the first and beyond the last == linear-scan reference with the documented fall-backs. distinct_nontrivial = distinct plan hashes with >= 2 operations.".into()
     }
     fn assumptions(&self) -> Vec<String> {
         vec![
@@ -106,24 +106,34 @@ impl Scenario for C13 {
                 0 | 1 => *rng.pick(&ALPHA_TIMES),
                 2 => ((rng.unit() - 0.3) * 10.0 * 8.0).round() / 8.0,
                 3 => (rng.unit() - 0.3) * 10.0,
-                4 => *rng.pick(&[0.5, 1.5, -0.5, 1e9, -1e9, 1e-9, 100.0, 1.0000000000000002, 0.5000000000000001, 0.25, 0.25000000000000006, 0.49999999999999994, 1e-17, 2e-16]),
+                4 => *rng.pick(&[0.5, 1.5, -0.5, 1e9, -1e9, 1e-9, 100.0, 1.0000000000000002, 0.5000000000000001, 0.25, 0.25000000000000006, 0.49999999999999994, 1e-17, 2e-16, 3e9, -3e9, 2147483647.0, 2147483648.0, f64::INFINITY, f64::NEG_INFINITY, f64::MAX, f64::MIN_POSITIVE]),
                 _ => rng.range(-3, 6) as f64,
             }
         };
+        let kind_bias = rng.below(4);
         let gen_op = |rng: &mut Rng, t: f64| -> Op {
             // rarely: a NaN time (positive NaN) — it equals no stored time, so it must not disturb any finite point
             let t = if rng.chance(1, 60) { f64::NAN } else { t };
-            match rng.below(4) {
+            let k = if rng.chance(1, 2) { kind_bias } else { rng.below(4) };
+            match k {
                 0 => Op::new("add_t", &[t, *rng.pick(&[500.0, 300.0, 5.0, 1e6]), rng.below(2) as f64]),
-                1 => Op::new("add_d", &[t, *rng.pick(&[1.0, 2.0, 0.5, 1.0, 0.0, 0.25, 0.25000000000000017]), if rng.chance(1, 6) { 0.0 } else { 1.0 }]),
-                2 => Op::new("add_e", &[t, rng.below(2) as f64, *rng.pick(&[1.0, 1.0, 2.0, 0.0, 0.25, 0.25000000000000017])]),
+                1 => Op::new("add_d", &[t, *rng.pick(&[1.0, 2.0, 0.5, 1.0, 0.0, 0.25, 0.25000000000000017, f64::NAN, f64::INFINITY, 2.0, 1.0]), if rng.chance(1, 4) { 0.0 } else { 1.0 }]),
+                2 => Op::new("add_e", &[t, rng.below(2) as f64, *rng.pick(&[1.0, 1.0, 2.0, 0.0, 0.25, 0.25000000000000017, f64::NAN, f64::INFINITY, 2.0, 1.0])]),
                 _ => Op::new("add_s", &[t, rng.below(4) as f64, *rng.pick(&[100.0, 50.0, 100.0, 120.0, -5.0]), rng.below(2) as f64]),
             }
         };
+        // one plan in ten is a long history (lists grow beyond any small internal threshold; equal-time adds land on
+        // every index), times drawn from a pool so that replacements happen everywhere
+        let long = rng.chance(1, 10);
+        let pool: Vec<f64> = (0..70).map(|i| i as f64 * 1.5 - 20.0).collect();
+        let cap = if long { 40 + rng.below(100) } else { 32 };
+        if long {
+            p.scen = "long-history".into();
+        }
         let mut scripts: Vec<Vec<Op>> = Vec::new();
         for c in 0..nclients {
-            let n = rng.below(14);
-            let mut times: Vec<f64> = (0..n).map(|_| gen_time(&mut rng)).collect();
+            let n = if long { 30 + rng.below(60) } else { rng.below(14) };
+            let mut times: Vec<f64> = (0..n).map(|_| if long && rng.chance(9, 10) { *rng.pick(&pool) } else { gen_time(&mut rng) }).collect();
             if c < 2 {
                 times.sort_by(f64::total_cmp); // decoder flush / encoder collection add in time order
             }
@@ -133,7 +143,7 @@ impl Scenario for C13 {
         let mut pos = vec![0usize; nclients];
         loop {
             let ready: Vec<usize> = (0..nclients).filter(|&c| pos[c] < scripts[c].len()).collect();
-            if ready.is_empty() || p.ops.len() >= 32 {
+            if ready.is_empty() || p.ops.len() >= cap {
                 break;
             }
             let c = *rng.pick(&ready);
@@ -291,8 +301,8 @@ fn check_lookups(cp: &ControlPoints, m: &MC, i: usize, st: &mut Stats) -> Result
     let te: Vec<f64> = m.e.iter().map(|p| p.time).collect();
     let ts: Vec<f64> = m.s.iter().map(|p| p.time).collect();
     for &t in &probes {
-        if t == 0.0 && t.is_sign_negative() {
-            continue;
+        if (t == 0.0 && t.is_sign_negative()) || t.is_nan() {
+            continue; // -0.0 and NaN probe times are outside the property (midpoint of -inf and a finite time is NaN)
         }
         st.inc("steps.lookups");
         let all = [&tt, &td, &te, &ts];
